@@ -471,10 +471,19 @@ fn run_host<F: Flavour>(sc: &InjSc, with_script: bool, stats: &mut Stats) -> (Op
         transposed,
         stats: Stats::default(),
     });
-    // handles taken before the loop
+    // handles taken before the loop, and handles obtained during it (endpoints of yielded edges)
     let before: Vec<F::Node> = world.nodes.iter().map(|n| n.clone()).collect();
+    let kept: RefCell<Vec<(F::Node, usize)>> = RefCell::new(Vec::new());
+    let keep = |n: &F::Node| {
+        let mut k = kept.borrow_mut();
+        if k.len() < 64 {
+            k.push((n.clone(), F::key(n)));
+        }
+    };
     let res = caught(|| match &sc.host {
         Host::IterOut { u } => F::for_out(&world.nodes[*u], &mut |a, b, e| {
+            keep(&a);
+            keep(&b);
             ctx.borrow_mut().on_yield(F::key(&a), F::key(&b), e.0, Some((0, *u)))
         }),
         Host::IterIn { u } => F::for_in(&world.nodes[*u], &mut |a, b, e| {
@@ -493,6 +502,8 @@ fn run_host<F: Flavour>(sc: &InjSc, with_script: bool, stats: &mut Stats) -> (Op
         Host::Search { root, spec } => {
             let mask = spec.mask;
             let out = F::search(&world.nodes[*root], spec, &mut |a, b, e| {
+                keep(a);
+                keep(b);
                 let go = ctx.borrow_mut().on_yield(F::key(a), F::key(b), e.0, None);
                 if !go {
                     // cut the traversal short: unwind through the library
@@ -532,6 +543,19 @@ fn run_host<F: Flavour>(sc: &InjSc, with_script: bool, stats: &mut Stats) -> (Op
     stats.add("script_entries_never_fired", (ctx.sc.script.len() - ctx.next) as u64);
     // after the loop: the graph is the model after exactly the injected operations,
     // seen through the handles taken before the loop
+    // handles obtained during the loop still address the nodes they named
+    for (h, k) in kept.borrow().iter() {
+        let ok = caught(|| F::key(h) == *k && F::out_degree(h) == F::out_degree(&world.nodes[*k]) && F::vid(h) == F::vid(&world.nodes[*k]));
+        if !matches!(ok, Caught::Ok(true)) {
+            return (
+                Some(Violation::new(
+                    "handle-invalidated",
+                    format!("a handle of node {k} obtained from a yielded edge during {:?} no longer addresses that node", sc.host),
+                )),
+                None,
+            );
+        }
+    }
     let w2 = World::<F> {
         nodes: before,
         graph: None,
